@@ -118,10 +118,12 @@ func coqBytes(b []byte) string {
 type Fmt struct {
 	K string `json:"k"` // count | line | all | num
 	N int64  `json:"n,omitempty"`
+	// Long: the format is spelt "*line" / "*all" / "*number" (only the letter after '*' counts)
+	Long bool `json:"long,omitempty"`
 }
 
 type Op struct {
-	T      string  `json:"t"` // open read lines next write seek flush setvbuf close snap iolines
+	T      string  `json:"t"` // open read lines next write seek flush setvbuf close snap iolines lclose stdclose
 	H      int     `json:"h,omitempty"`
 	Mode   string  `json:"mode,omitempty"`
 	Fmts   []Fmt   `json:"fmts,omitempty"`
@@ -135,6 +137,11 @@ type Op struct {
 	// Via "io": the same operation spelt through the io table: lines = io.input(f); io.lines(),
 	// close = io.close(f). The models do not distinguish the spellings.
 	Via string `json:"via,omitempty"`
+	// Arg: lines/next call the iterator with this handle as its argument (it must be ignored:
+	// the iterator is a closure over its own file); nil = called without arguments
+	Arg *int `json:"arg,omitempty"`
+	// Which: stdclose closes "stdout" or "stderr" (refused)
+	Which string `json:"which,omitempty"`
 }
 
 type Input struct {
@@ -171,6 +178,10 @@ func coqOp(o Op) string {
 		return "SSnap"
 	case "iolines":
 		return "SIoLines"
+	case "lclose":
+		return "SCloseAll"
+	case "stdclose":
+		return "SStdClose"
 	case "read":
 		it := make([]string, len(o.Fmts))
 		for i, f := range o.Fmts {
